@@ -1,6 +1,13 @@
 /-
 C09 — After a crash at any point the snapshotter restarts consistent and re-mounted.
 Only property theorems and their non-vacuity examples live here.
+
+Setting (see `SV/Model/Snap.lean`): `Reachable cfg0 s` — `s` is the state after some history of
+calls (each with its own backend `Oracle`) and some PREFIX of the atomic steps of the call in flight:
+exactly the states a crash can expose (mkdir/rename/RemoveAll atomic, bolt transactions
+all-or-nothing).  `crash s` forgets the volatile part; `restore d cfg orc` is `NewSnapshotter` on the
+durable image with configuration `cfg` and a fresh backend whose Mount outcomes are given by `orc`.
+`CleanReachable` additionally asks that no call sets the label containerd.io/snapshot/remote itself.
 -/
 import SV.Lemmas.Snap
 
@@ -8,8 +15,198 @@ namespace SV.Props.C09
 open SV.Snap
 
 /-- The metadata invariant (distinct keys/ids, ids below the sequence, committed parents with
-smaller ids) holds in every state a crash can expose. -/
+smaller ids, mount ⇒ directory) holds in every state a crash can expose. -/
 theorem crash_state_invariant (cfg0 : Config) (s : State) (h : Reachable cfg0 s) : Inv s :=
   inv_reachable h
+
+/-- Starting again succeeds, or fails — and it fails EXACTLY when some remote snapshot cannot be
+mounted while allow_invalid_mounts_on_restart is off (and restoring is on).  Holds for every durable
+image, in particular for every crash state. -/
+theorem restore_fails_iff (d : Durable) (cfg : Config) (orc : Oracle) :
+    ((restore d cfg orc).2 = .ok ∨ (restore d cfg orc).2 = .err .other) ∧
+    ((restore d cfg orc).2 = .err .other ↔
+      (cfg.noRestore = false ∧ cfg.allowInvalid = false ∧
+        ∃ a ∈ d.snaps, isRemote a.labels = true ∧ orc.mountOk a.id = false)) :=
+  restore_result d cfg orc
+
+/-- After a successful restoring start on ANY crash state: the metadata is untouched, the
+snapshotter is open, the backend mounts are exactly the committed remote snapshots whose Mount
+succeeded (each once; the others are the tolerated invalid ones, which requires allow-invalid),
+every mount has its directory, and the only directories touched are those of remote snapshots
+(created if missing) — ordinary snapshots' directories and leftovers are as the crash left them. -/
+theorem restart_consistent (cfg0 : Config) (s : State) (h : Reachable cfg0 s) (cfg : Config)
+    (hnr : cfg.noRestore = false) (orc : Oracle) (hok : (restore (crash s) cfg orc).2 = .ok) :
+    (restore (crash s) cfg orc).1.snaps = s.snaps ∧
+    (restore (crash s) cfg orc).1.closed = false ∧
+    (∀ n, n ∈ (restore (crash s) cfg orc).1.mounts ↔
+        ∃ a ∈ s.snaps, isRemote a.labels = true ∧ a.id = n ∧ orc.mountOk n = true) ∧
+    (restore (crash s) cfg orc).1.mounts.Nodup ∧
+    (∀ n ∈ (restore (crash s) cfg orc).1.mounts, Dir.id n ∈ (restore (crash s) cfg orc).1.dirs) ∧
+    (∀ a ∈ s.snaps, isRemote a.labels = true → a.kind = .committed →
+        Dir.id a.id ∈ (restore (crash s) cfg orc).1.dirs ∧
+        (a.id ∈ (restore (crash s) cfg orc).1.mounts ∨ (orc.mountOk a.id = false ∧ cfg.allowInvalid = true))) ∧
+    (∀ x, x ∈ (restore (crash s) cfg orc).1.dirs ↔
+        x ∈ s.dirs ∨ ∃ a ∈ s.snaps, isRemote a.labels = true ∧ x = Dir.id a.id) := by
+  have hinv := inv_reachable h
+  have hinv' : Inv (restore (crash s) cfg orc).1 := inv_runOp (inv_ofDurable hinv cfg) orc (.restart cfg)
+  obtain ⟨h1, h2, h3⟩ := restore_ok_state (crash s) cfg orc hnr hok
+  refine ⟨(restore_snaps (crash s) cfg orc).1, h1, h2, hinv'.mountNodup, hinv'.mountDir, ?_, h3⟩
+  intro a ha har _
+  refine ⟨(h3 _).mpr (Or.inr ⟨a, ha, har, rfl⟩), ?_⟩
+  by_cases hm : orc.mountOk a.id = true
+  · exact Or.inl ((h2 _).mpr ⟨a, ha, har, rfl, hm⟩)
+  · have hm' : orc.mountOk a.id = false := by simpa using hm
+    right
+    refine ⟨hm', ?_⟩
+    cases hai : cfg.allowInvalid with
+    | true => rfl
+    | false =>
+      have := (restore_fails_iff (crash s) cfg orc).2.mpr ⟨hnr, hai, a, ha, har, hm'⟩
+      rw [this] at hok; cases hok
+
+/-- Every Mount that restore issues is for a remote-labelled snapshot, at its id, with the labels
+recorded for it; no Check or Unmount is issued; and when the start succeeds every remote-labelled
+snapshot got its Mount. -/
+theorem restore_mounts_with_recorded_labels (d : Durable) (cfg : Config) (orc : Oracle) :
+    (∀ id l ok, Step.fsMount id l ok ∈ (plan (ofDurable d cfg) orc (.restart cfg)).1 →
+      ∃ a ∈ d.snaps, isRemote a.labels = true ∧ id = a.id ∧ l = a.labels ∧ ok = orc.mountOk a.id) ∧
+    (∀ st ∈ (plan (ofDurable d cfg) orc (.restart cfg)).1, st.isPlain = true ∧ ∀ id ok, st ≠ .fsCheck id ok) ∧
+    (cfg.noRestore = false → (restore d cfg orc).2 = .ok → ∀ a ∈ d.snaps, isRemote a.labels = true →
+      Step.fsMount a.id a.labels (orc.mountOk a.id) ∈ (plan (ofDurable d cfg) orc (.restart cfg)).1) := by
+  refine ⟨?_, ?_, ?_⟩
+  · intro id l ok hmem
+    simp only [plan, restartPlan] at hmem
+    have key : Step.fsMount id l ok ∈ (restoreSteps cfg.allowInvalid orc (remoteOf d.snaps)).1 →
+        ∃ a ∈ d.snaps, isRemote a.labels = true ∧ id = a.id ∧ l = a.labels ∧ ok = orc.mountOk a.id := by
+      intro hm
+      obtain ⟨t, ht, h⟩ := restoreSteps_mount_steps _ _ _ id l ok hm
+      have ht' := List.mem_filter.mp ht
+      exact ⟨t, ht'.1, ht'.2, h⟩
+    split at hmem
+    · simp at hmem
+    · split at hmem
+      · simp only [List.mem_cons, List.mem_append, reduceCtorEq, List.not_mem_nil, or_false, false_or] at hmem
+        exact key hmem
+      · simp only [List.mem_cons, reduceCtorEq, false_or] at hmem
+        exact key hmem
+  · intro st hst
+    refine ⟨restartPlan_plain _ orc cfg st hst, ?_⟩
+    intro id ok e
+    subst e
+    have hnc : ∀ (allow : Bool) (tasks : List Snap), Step.fsCheck id ok ∉ (restoreSteps allow orc tasks).1 := by
+      intro allow tasks
+      induction tasks with
+      | nil => simp [restoreSteps]
+      | cons sn rest ih =>
+        unfold restoreSteps
+        split
+        · simp [ih]
+        · split
+          · simp [ih]
+          · simp
+    simp only [plan, restartPlan] at hst
+    split at hst
+    · simp at hst
+    · split at hst
+      · simp only [List.mem_cons, List.mem_append, reduceCtorEq, List.not_mem_nil, or_false, false_or] at hst
+        exact hnc _ _ hst
+      · simp only [List.mem_cons, reduceCtorEq, false_or] at hst
+        exact hnc _ _ hst
+  · intro hnr hok a ha har
+    simp only [restore, runOp, plan, restartPlan, hnr, Bool.false_eq_true, if_false] at hok ⊢
+    have hd : (ofDurable d cfg).snaps = d.snaps := rfl
+    by_cases hres : (restoreSteps cfg.allowInvalid orc (remoteOf (ofDurable d cfg).snaps)).2 = true
+    · simp only [hres, if_true]
+      have := restoreSteps_all_mounted _ _ _ hres a (List.mem_filter.mpr ⟨by rw [hd]; exact ha, har⟩)
+      simp [this]
+    · simp [hres] at hok
+
+/-- Every snapshot the previous process had acknowledged is still present, unchanged, after the
+restart — at whatever instant of whatever call the process died — unless the call in flight is the
+one that consumes it (Remove / Commit / Update of that very key). -/
+theorem acknowledged_snapshots_survive (cfg0 : Config) (hist : List (Op × Oracle)) (op : Op) (orc : Oracle)
+    (k : Nat) (a : Snap) (ha : a ∈ (runOps (init cfg0) hist).snaps) (hk : a.key ∉ consumes op)
+    (cfg : Config) (orc' : Oracle) :
+    a ∈ (restore (crash (applySteps (runOps (init cfg0) hist)
+          ((plan (runOps (init cfg0) hist) orc op).1.take k))) cfg orc').1.snaps := by
+  rw [(restore_snaps _ cfg orc').1]
+  show a ∈ (applySteps (runOps (init cfg0) hist) ((plan (runOps (init cfg0) hist) orc op).1.take k)).snaps
+  apply mem_applySteps_of_untouched ha
+  intro st hst hmem
+  rcases plan_touches _ orc op st (List.mem_of_mem_take hst) a.key hmem with h | h
+  · exact hk h
+  · exact hasKey_false.mp h a ha rfl
+
+/-- ... and it is usable and removable: its directory exists after the restart (calls that do not
+set the remote label themselves). -/
+theorem acknowledged_snapshots_have_dirs (cfg0 : Config) (s : State) (h : CleanReachable cfg0 s) (cfg : Config)
+    (hnr : cfg.noRestore = false) (orc : Oracle) (hok : (restore (crash s) cfg orc).2 = .ok) :
+    ∀ a ∈ (restore (crash s) cfg orc).1.snaps, Dir.id a.id ∈ (restore (crash s) cfg orc).1.dirs := by
+  intro a ha
+  rw [(restore_snaps (crash s) cfg orc).1] at ha
+  obtain ⟨_, _, h3⟩ := restore_ok_state (crash s) cfg orc hnr hok
+  rw [h3]
+  rcases (cinv_reachable h).dirOrRemote a ha with hd | hr
+  · exact Or.inl hd
+  · exact Or.inr ⟨a, ha, hr, rfl⟩
+
+/-- One cleanup pass after the restart removes every directory the dead process left half-made
+(temporaries, renamed-but-uncommitted ids, removed-but-undeleted ids): the directories are then
+exactly those of the live snapshots — from ANY crash state, including a crash inside the very first
+createSnapshot. -/
+theorem one_cleanup_suffices (cfg0 : Config) (s : State) (h : CleanReachable cfg0 s) (cfg : Config)
+    (hnr : cfg.noRestore = false) (orc : Oracle) (hok : (restore (crash s) cfg orc).2 = .ok)
+    (orc' : Oracle) (order : List Dir) :
+    (runOp (restore (crash s) cfg orc).1 orc' (.cleanup order)).2 = .ok ∧
+    (runOp (restore (crash s) cfg orc).1 orc' (.cleanup order)).1.snaps = s.snaps ∧
+    ∀ d, d ∈ (runOp (restore (crash s) cfg orc).1 orc' (.cleanup order)).1.dirs ↔
+      ∃ a ∈ s.snaps, d = Dir.id a.id := by
+  obtain ⟨h1, _, _⟩ := restore_ok_state (crash s) cfg orc hnr hok
+  have had : AllDirs (restore (crash s) cfg orc).1 := acknowledged_snapshots_have_dirs cfg0 s h cfg hnr orc hok
+  obtain ⟨c1, c2⟩ := cleanup_exact_of_allDirs _ h1 had orc' order
+  have hsn : (runOp (restore (crash s) cfg orc).1 orc' (.cleanup order)).1.snaps = s.snaps := by
+    simp only [runOp, plan, h1, Bool.false_eq_true, if_false, cleanupPlan]
+    rw [(cleanupSteps_state orc' _ _).1]
+    exact (restore_snaps (crash s) cfg orc).1
+  refine ⟨c1, hsn, ?_⟩
+  intro d
+  rw [c2, hsn]
+
+/-- With NoRestore the start is the identity: it succeeds, issues no backend call, mounts nothing
+and leaves the durable state exactly as it was. -/
+theorem norestore_is_identity (d : Durable) (cfg : Config) (orc : Oracle) (h : cfg.noRestore = true) :
+    (restore d cfg orc).2 = .ok ∧ (restore d cfg orc).1.toDurable = d ∧ (restore d cfg orc).1.mounts = [] ∧
+    (restore d cfg orc).1.closed = false ∧
+    (plan (ofDurable d cfg) orc (.restart cfg)).1 = [.crash cfg, .opened] := by
+  simp [restore, runOp, plan, restartPlan, h, applySteps, applyStep, ofDurable]
+
+/-! ### non-vacuity -/
+
+def okOracle : Oracle := ⟨fun _ => true, fun _ => true, fun _ => true⟩
+
+/-- a remote layer c1, then the process dies inside `Prepare("k2", parent c1)` after the rename,
+before the metadata commit (4 steps into the call) -/
+def demoHist : List (Op × Oracle) := [(.prepare "k1" "" [(targetLabel, "c1")], okOracle)]
+def demoCrash : State :=
+  applySteps (runOps (init {}) demoHist) ((plan (runOps (init {}) demoHist) okOracle (.prepare "k2" "c1" [])).1.take 4)
+
+example : CleanReachable {} demoCrash :=
+  ⟨demoHist, .prepare "k2" "c1" [], okOracle, 4,
+    by intro p hp; simp [demoHist] at hp; subst hp; show isRemote _ = false; decide,
+    by show isRemote _ = false; decide, rfl⟩
+-- the crash image: the remote snapshot, its directory and the renamed-but-uncommitted directory 2
+example : demoCrash.dirs = [.id 1, .id 2] := by decide
+example : demoCrash.snaps.map (·.key) = ["c1"] := by decide
+-- restart re-mounts c1 with its recorded labels; one cleanup reclaims directory 2
+example : (restore (crash demoCrash) {} okOracle).2 = .ok := by decide
+example : (restore (crash demoCrash) {} okOracle).1.mounts = [1] := by decide
+example : (runOp (restore (crash demoCrash) {} okOracle).1 okOracle (.cleanup [])).1.dirs = [.id 1] := by decide
+-- a failing re-mount is refused, or tolerated with allow-invalid
+example : (restore (crash demoCrash) {} ⟨fun _ => false, fun _ => true, fun _ => true⟩).2 = .err .other := by decide
+example : (restore (crash demoCrash) { allowInvalid := true } ⟨fun _ => false, fun _ => true, fun _ => true⟩).2 = .ok := by
+  decide
+-- a crash inside the very first createSnapshot (nothing ever committed): cleanup reclaims the temporary
+example : (runOp (restore (crash (applySteps (init {}) ((plan (init {}) okOracle (.prepare "k1" "" [])).1.take 1)))
+    {} okOracle).1 okOracle (.cleanup [])).1.dirs = [] := by decide
 
 end SV.Props.C09
